@@ -12,6 +12,8 @@ import (
 	"github.com/google/gce-tcb-verifier/gcetcbendorsement"
 	gcmd "github.com/google/gce-tcb-verifier/gcetcbendorsement/cmd"
 	epb "github.com/google/gce-tcb-verifier/proto/endorsement"
+	sops "github.com/google/gce-tcb-verifier/sign/ops"
+	styp "github.com/google/gce-tcb-verifier/sign/types"
 	"github.com/google/gce-tcb-verifier/verify"
 	tpmpb "github.com/google/go-tpm-tools/proto/attest"
 	"google.golang.org/protobuf/proto"
@@ -26,7 +28,7 @@ import (
 func init() {
 	core.Register(&core.Check{
 		ID: "C01", World: "R (relying party)", Level: "exploration",
-		Rule: "one evaluation = one verification/validation call of an entry point (verify.Endorsement, verify.EndorsementProto, the SNP validator closure with blob from certificate table / getter / options, SevValidate with endorsement given / in extras / from the bucket, TdxValidate, the verify / sev validate / tdx validate cobra commands) with a delivered endorsement, a root set and a verification time; " +
+		Rule: "one evaluation = one verification/validation call of an entry point (verify.Endorsement, verify.EndorsementProto, sops.VerifySignatureFromCA, the SNP validator closure with blob from certificate table / getter / options, SevValidate with endorsement given / in extras / from the bucket, TdxValidate, the verify / sev validate / tdx validate cobra commands) with a delivered endorsement, a root set and a verification time; " +
 			"the endorsement comes from a live authority history (rotations, destroyed keys, a second authority) through a byzantine channel: byte corruption of blob / payload / signature / certificate, certificate swaps, re-signing with uncertified / foreign-certified / rotated-away keys or other signature schemes, replays outside the certificate's validity; roots in {right, foreign, both, empty, nil}; times at and around NotBefore/NotAfter with clock skew; " +
 			"oracle: every ACCEPTED delivery must pass the independent reference verifier; non-trivial = delivery differs from the genuine one or roots/time are not the matching ones; distinct by (entry point, operator, root-set kind, time class, outcome)",
 		Assumptions: []string{
@@ -240,7 +242,7 @@ func runC01(r *core.Run) {
 			skew := []time.Duration{-6 * 365 * 24 * time.Hour, -24 * time.Hour, time.Hour, 6 * 365 * 24 * time.Hour}[r.Intn(4, "skew")]
 			t, timeClass = a.A.Now.Add(skew), "skewed-now"
 		}
-		entry := r.Intn(14, "entry")
+		entry := r.Intn(15, "entry")
 		if entry >= 9 && entry <= 11 && !(wantTDX) { // TDX entries need a TDX world
 			entry = r.Intn(9, "entry-snp")
 		}
@@ -406,6 +408,14 @@ func callEntry(r *core.Run, entry int, d delivery, cpool *x509.CertPool, rootLis
 		}
 		f := verify.SNPValidateFunc(&verify.Options{RootsOfTrust: cpool, Now: t, Endorsement: le})
 		return f(SnpAttestation(meas, nil), d.base.Bytes), "closure/options+table", false
+	case 14:
+		// sign/ops: verify a message signature "from the CA": the CA double serves the delivered
+		// certificate for the key and the caller's roots as its bundle
+		if !parsed || len(rootList) == 0 {
+			return nil, "", true
+		}
+		ca := &servingCA{cert: g.GetCert(), bundle: pemOf(rootList...)}
+		return sops.VerifySignatureFromCA(ctx, ca, "k", t, le.GetSerializedUefiGolden(), le.GetSignature()), "sops.VerifySignatureFromCA", false
 	default: // 9, 10: TdxValidate with the endorsement supplied
 		if !parsed || len(mrtd) != 48 {
 			return nil, "", true
@@ -413,3 +423,13 @@ func callEntry(r *core.Run, entry int, d delivery, cpool *x509.CertPool, rootLis
 		return gcetcbendorsement.TdxValidate(ctx, TdxQuoteRaw(TdxQuote(mrtd)), &gcetcbendorsement.TdxValidateOptions{Endorsement: le, RootsOfTrust: cpool, Now: t}), "TdxValidate/given", false
 	}
 }
+
+// servingCA is a read-only CertificateAuthority double for sops.VerifySignatureFromCA.
+type servingCA struct {
+	styp.CertificateAuthority
+	cert   []byte
+	bundle []byte
+}
+
+func (c *servingCA) Certificate(context.Context, string) ([]byte, error) { return c.cert, nil }
+func (c *servingCA) CABundle(context.Context, string) ([]byte, error)    { return c.bundle, nil }
